@@ -167,6 +167,87 @@ pub fn run_chunks(chunks: Vec<Vec<u8>>, limit: usize) -> Result<Vec<Vec<u8>>, St
     })
 }
 
+/// The same framer behind its real TCP arm: the wire bytes are written to a loopback connection in pieces of `piece`
+/// bytes (with a pause of `pause_us` between them), `next_msg` reads from the connected socket until the peer closes.
+/// How the kernel chunks the bytes is not controlled - the property says it must not matter.
+pub fn run_tcp(wire: &[u8], piece: usize, pause_us: u64, limit: usize) -> Result<Vec<Vec<u8>>, String> {
+    use tokio::io::AsyncWriteExt;
+    let data = wire.to_vec();
+    guarded(move || {
+        let rt = tokio::runtime::Builder::new_current_thread().enable_all().build().expect("runtime");
+        rt.block_on(async move {
+            let listener = tokio::net::TcpListener::bind("127.0.0.1:0").await.expect("loopback listener");
+            let addr = listener.local_addr().expect("local address");
+            let writer = tokio::spawn(async move {
+                let (mut sock, _) = listener.accept().await.expect("accept");
+                let _ = sock.set_nodelay(true);
+                for c in data.chunks(piece.max(1)) {
+                    if sock.write_all(c).await.is_err() {
+                        break;
+                    }
+                    if pause_us > 0 {
+                        tokio::time::sleep(std::time::Duration::from_micros(pause_us)).await;
+                    }
+                }
+                let _ = sock.shutdown().await;
+            });
+            let sock = tokio::net::TcpStream::connect(addr).await.expect("connect to loopback");
+            let s = next_msg(DataSource::Tcp(sock)).await;
+            futures::pin_mut!(s);
+            let mut out = Vec::new();
+            loop {
+                match tokio::time::timeout(std::time::Duration::from_secs(20), s.next()).await {
+                    Ok(Some(m)) => {
+                        out.push(m);
+                        if out.len() > limit {
+                            break;
+                        }
+                    }
+                    Ok(None) => break,
+                    Err(_) => panic!("next_msg on a TCP socket yielded nothing for 20 s although the peer had closed"),
+                }
+            }
+            let _ = writer.await;
+            out
+        })
+    })
+}
+
+/// The UDP arm: every chunk is one datagram (<= 1024 bytes), so the chunking is exactly the given one. There is no end
+/// of stream: reading stops when `expect` frames have arrived or nothing arrives for 300 ms.
+pub fn run_udp(chunks: Vec<Vec<u8>>, expect: usize, limit: usize) -> Result<Vec<Vec<u8>>, String> {
+    guarded(move || {
+        let rt = tokio::runtime::Builder::new_current_thread().enable_all().build().expect("runtime");
+        rt.block_on(async move {
+            let rx = tokio::net::UdpSocket::bind("127.0.0.1:0").await.expect("loopback socket");
+            let addr = rx.local_addr().expect("local address");
+            let tx = tokio::net::UdpSocket::bind("127.0.0.1:0").await.expect("loopback socket");
+            let writer = tokio::spawn(async move {
+                for c in chunks {
+                    let _ = tx.send_to(&c, addr).await;
+                    tokio::task::yield_now().await;
+                }
+            });
+            let s = next_msg(DataSource::Udp(rx)).await;
+            futures::pin_mut!(s);
+            let mut out = Vec::new();
+            while out.len() < expect.max(1) {
+                match tokio::time::timeout(std::time::Duration::from_millis(300), s.next()).await {
+                    Ok(Some(m)) => {
+                        out.push(m);
+                        if out.len() > limit {
+                            break;
+                        }
+                    }
+                    _ => break,
+                }
+            }
+            let _ = writer.await;
+            out
+        })
+    })
+}
+
 fn split(wire: &[u8], cuts: &[usize]) -> Vec<Vec<u8>> {
     let mut v = Vec::new();
     let mut last = 0;
@@ -402,6 +483,58 @@ pub fn run(ctx: &Ctx, rep: &Report) {
         inside.fetch_add(cnt, Ordering::Relaxed);
     });
     rep.part("long stream, 1024-byte reads", total.load(Ordering::Relaxed) - before, json!({"bytes": long.wire.len(), "frames": long.frames.len()}));
+    // (e) a stream of several megabytes (buffers that are reclaimed, cursors that wrap, counters): every frame carries
+    // its index in the timestamp field, so an old frame handed on again is recognised
+    {
+        let before = total.load(Ordering::Relaxed);
+        let nframes = if thorough { 450_000 } else { 110_000 };
+        let base: Vec<&Frame> = f1.iter().filter(|(n, _)| n.contains("filler=0")).map(|(_, f)| f).collect();
+        let mut frames: Vec<Frame> = Vec::with_capacity(nframes);
+        for i in 0..nframes {
+            let mut f = base[i % base.len()].clone();
+            let c = (i as u64 + 1).to_be_bytes();
+            f.plain[2..8].copy_from_slice(&c[2..8]);
+            frames.push(f);
+        }
+        frames.extend(tl.iter().cloned());
+        let big = stream(frames);
+        let limit = big.frames.len() + 2;
+        // (a read returns at most 1024 bytes: that is the size of the framer's read buffer)
+        let one = run_chunks(split(&big.wire, &(1..big.wire.len()).filter(|c| c % 1024 == 0).collect::<Vec<_>>()), limit);
+        if let Some((c, w)) = judge(&big, &one, None) {
+            rep.violation(&format!("big:{c}"), w, json!({"big_stream_frames": big.frames.len(), "read": 1024}));
+        }
+        let mut cnt = 1u64;
+        for read in [997usize, 512, 100, 23] {
+            let cuts: Vec<usize> = (1..big.wire.len()).filter(|c| c % read == 0).collect();
+            let r = run_chunks(split(&big.wire, &cuts), limit);
+            cnt += 1;
+            if let Some((c, w)) = judge(&big, &r, one.as_ref().ok()) {
+                rep.violation(&format!("big:{c}"), w, json!({"big_stream_frames": big.frames.len(), "read": read}));
+            }
+        }
+        // the real TCP arm over loopback: the same big stream, and the 200-frame stream in small pieces
+        for (st, piece, pause) in [(&big, 1 << 20, 0u64), (&big, 1500, 0), (&long, 700, 50), (&long, 64, 0), (&long, long.wire.len(), 0)] {
+            let r = run_tcp(&st.wire, piece, pause, st.frames.len() + 2);
+            cnt += 1;
+            if let Some((c, w)) = judge(st, &r, None) {
+                rep.violation(&format!("tcp:{c}"), format!("real TCP arm over loopback, written in pieces of {piece} bytes: {w}"), json!({"tcp_stream_frames": st.frames.len(), "piece": piece, "pause_us": pause}));
+            }
+        }
+        // the real UDP arm: one datagram per chunk
+        for read in [1024usize, 512, 37] {
+            let cuts: Vec<usize> = (1..long.wire.len()).filter(|c| c % read == 0).collect();
+            let expect = long.frames.iter().filter(|f| f.plain[1] != 0x34).count();
+            let r = run_udp(split(&long.wire, &cuts), expect, long.frames.len() + 2);
+            cnt += 1;
+            if let Some((c, w)) = judge(&long, &r, None) {
+                rep.violation(&format!("udp:{c}"), format!("real UDP arm over loopback, datagrams of {read} bytes: {w}"), json!({"udp_stream_frames": long.frames.len(), "datagram": read}));
+            }
+        }
+        total.fetch_add(cnt, Ordering::Relaxed);
+        inside.fetch_add(cnt, Ordering::Relaxed);
+        rep.part("multi-megabyte stream (Chunks hook) and the real TCP / UDP arms over loopback", total.load(Ordering::Relaxed) - before, json!({"bytes": big.wire.len(), "frames": big.frames.len(), "note": "TCP chunking is decided by the kernel: any chunking must give the same frames"}));
+    }
     // what the cuts hit (vacuity guard): classify every single cut of a fixed subset of streams
     {
         let mut o = outcomes.lock().unwrap();
